@@ -92,6 +92,8 @@ def gen_unit(rng, uid, opts):
     cuts = sorted(rng.sample(range(nS + 1), 2)) if rng.random() < 0.7 else [nS, nS]
     if rng.random() < 0.25:
         cuts = [0, 0]                                   # everything in app
+    if opts.get("p_lib_structs") and rng.random() < opts["p_lib_structs"] and nS > 1:
+        cuts = [1, rng.randint(1, nS)]                  # only the root type in app: the providers live in the libraries
     for i in range(nS):
         pkg = "app" if i < cuts[0] or cuts == [0, 0] else ("libb" if i < cuts[1] else "liba")
         if cuts == [nS, nS]:
@@ -352,6 +354,16 @@ def gen_unit(rng, uid, opts):
                     u.items.append({"kind": "value", "outs": [("v", j)], "deps": [], "pkg": u.structs[j]["pkg"], "id": new_id()})
                     src[("v", j)] = len(u.items) - 1
                     s["items"].append(len(u.items) - 1)
+    if opts.get("p_wrap_build") and rng.random() < opts["p_wrap_build"] and (keep[-1]["items"] or keep[-1]["imports"]):
+        # the injector lists one set variable of its own package: its body then mentions no other package
+        b = keep[-1]
+        stay = [n for n in b["items"] if u.items[n]["kind"] == "bind" and u.items[src[u.items[n]["conc"]]]["kind"] == "arg"
+                if u.items[n]["conc"] in src]
+        w = {"id": uid * 100 + 90, "items": [n for n in b["items"] if n not in stay], "imports": list(b["imports"]), "build": False,
+             "pkg": "app", "var": "Set%d" % (uid * 100 + 90)}
+        if w["items"] or w["imports"]:
+            keep.insert(len(keep) - 1, w)
+            b["items"], b["imports"] = stay, [len(keep) - 2]
     u.sets = keep
     # --- injector -----------------------------------------------------------------------------
     need_cleanup = any(it.get("cleanup") for it in u.items)
@@ -538,6 +550,7 @@ def field_decl_type(u, td, frm):
 def materialise(prog):
     """-> {relative path: content} for the packages of one program (under <progname>/)"""
     files = {}
+    mimics = []
     for pkg in prog.pkgs:
         body, used = [], set()
         inj_body, inj_used = [], set()
@@ -607,6 +620,7 @@ def materialise(prog):
                 lit = T(u, ("v", i)) + "{ID: id_" + "".join(", %s: %s" % (f, fresh_value(u, td, T)) for f, td in st["fields"]) + "}"
                 val = "&" + lit if k == "p" else lit
                 zero = {"v": T(u, ("v", i)) + "{}", "p": "nil", "i": "nil", "s": "nil"}[out[0]]
+                it["_sig"] = (name, ", ".join(params), rsig, zero)     # for methods that mimic the function (see below)
                 lines = ["func %s(%s) %s {" % (name, ", ".join(params), rsig),
                          "\tid_, err_ := wtrace.Call(%s%s)" % (q, dargs)]
                 fail = ["\tif err_ != nil {"]
@@ -666,16 +680,30 @@ def materialise(prog):
                 s = u.sets[-1]
                 inj = u.inj
                 ptypes = [T(u, td, inj_used) for td in inj["args"]]
-                build_args = set_args(u, s, pkg, lambda td: T(u, td, inj_used), inj_used)
+                # what the body of the template mentions (the signature is resolved outside the function's block, so a
+                # parameter may be called like the package of its own type: `log *log.Logger`)
+                body_used = set()
+                build_args = set_args(u, s, pkg, lambda td: T(u, td, body_used), body_used)
+                if inj["form"] not in ("panic", "noreturn") and inj["out"][0] == "v":
+                    T(u, ("v", inj["out"][1]), body_used)
+                inj_used |= body_used
                 names = list(inj["argnames"]) if inj["argnames"] else ["arg%d" % n for n in range(len(ptypes))]
                 if any(x.startswith("@") for x in names):
                     from . import e2e_names
-                    names = e2e_names.resolve_param_names(prog, u, {prog.qual(q) for q in inj_used} | {"wire"})
+                    names = e2e_names.resolve_param_names(prog, u, {prog.qual(q) for q in body_used} | {"wire"})
                 # the user's own template must compile: a parameter may not shadow a package the
-                # template mentions, nor the builtin `new` it calls
-                banned = {prog.qual(q) for q in inj_used} | {"wire", "new", "panic"}
+                # body of the template mentions, nor the builtin `new` it calls
+                banned = {prog.qual(q) for q in body_used} | {"wire", "new", "panic"}
                 names = [nm if nm not in banned else "q%d" % n for n, nm in enumerate(names)]
                 inj["argnames_resolved"] = names
+                # a parameter called like the package of its own struct type: give that type methods that look exactly like the
+                # package's provider functions (log.Writer() / (*log.Logger).Writer()), so that a parameter capturing the package
+                # name in the generated body is a type-correct, silent change of behaviour
+                for nm, td in zip(names, inj["args"]):
+                    if td[0] in ("v", "p") and getattr(prog, "mimic_methods", False):
+                        st_ = u.structs[td[1]]
+                        if st_["pkg"] != pkg and nm == prog.qual(st_["pkg"]):
+                            mimics.append((u, td[1], st_["pkg"]))
                 params = [("%s %s" % (nm, ty)).strip() for nm, ty in zip(names, ptypes)]
                 res = [T(u, inj["out"], inj_used)]
                 if inj["cleanup"]:
@@ -734,6 +762,18 @@ def materialise(prog):
                         pname, imports_for(prog, inj_used, pkg, [WIRE_IMPORT[wimp]]), "\n".join(anchors), "\n\n".join(part))
         if inj_body and not body:
             files["%s/%s.go" % (pdir, pkg)] = "package %s\n\nvar Anchor = 0\n" % pname
+    for u, si, lib in mimics:
+        path = "%s/%s.go" % (prog.pkgmap[lib]["dir"], lib)
+        st = u.structs[si]
+        extra = []
+        for it in u.items:
+            if it["kind"] == "func" and it.get("pkg") == lib and "_sig" in it:
+                name, params, rsig, zero = it["_sig"]
+                r = [zero] + (["func() {}"] if it["cleanup"] else []) + (["nil"] if it["err"] else [])
+                extra.append('func (x %s) %s(%s) %s {\n\twtrace.Log("CAPTURED %s.%s by a method of %s")\n\treturn %s\n}'
+                             % (st["name"], name, params, rsig, lib, name, st["name"], ", ".join(r)))
+        if extra and path in files:
+            files[path] += "\n" + "\n\n".join(extra) + "\n"
     return files
 
 
